@@ -89,6 +89,42 @@ func H_C06_roundtrip() {
 	vassert(ok, "C06: the fail file name does not match the discovery pattern of its test")
 }
 
+// H_C06_roundtripLong: a long counterexample (600 words, about 11 KB of data lines: several refills
+// of the scanner's buffer), the first, a middle and the last word symbolic.
+func H_C06_roundtripLong() {
+	vfsReset()
+	seed := nondetU64("seed")
+	n := 600
+	buf := make([]uint64, n)
+	for i := range buf {
+		buf[i] = uint64(i+1) * 0x9E3779B97F4A7C15 >> uint(i%61)
+	}
+	buf[0], buf[n/2], buf[n-1] = nondetU64("first"), nondetU64("middle"), nondetU64("last")
+	output := []byte("some output\n")
+	if choose("bigOutput", 2) == 1 {
+		output = []byte(strings.Repeat("a line of captured output\n", 300))
+	}
+	name := "TestLong"
+	_, filename := failFileName(name)
+	dir := scratchDir()
+	defer scratchDone(dir)
+	filename = filepath.Join(dir, filename)
+	err := saveFailFile(filename, rapidVersion, output, seed, buf)
+	vassert(err == nil, "C06: saveFailFile failed on a healthy file system")
+	version, seed2, buf2, err2 := loadFailFile(filename)
+	vassert(err2 == nil, "C06: a fail file that was just saved cannot be loaded (persisted failure would be ignored)")
+	if err2 != nil {
+		return
+	}
+	reach("loaded")
+	vassert(version == rapidVersion, "C06: version does not round-trip through the fail file")
+	vassert(seed2 == seed, "C06: seed does not round-trip through the fail file")
+	vassert(len(buf2) == len(buf), "C06: bitstream length does not round-trip through the fail file")
+	for i := 0; i < len(buf) && i < len(buf2); i++ {
+		vassert(buf2[i] == buf[i], "C06: bitstream does not round-trip through the fail file")
+	}
+}
+
 var testNames = []string{"TestFoo", "Test/sub", "Тест", "a b", "CON", "com1", "x*y?[z]", "..", "t\\u", "日本/語", ""}
 
 func failTestName() string {
